@@ -79,9 +79,9 @@ def table(inp):
     row('short/signature-prefix', [T.cmp('Lt', n, I(12)), f['SIGPFX']],
         C17=err('Incomplete', n), C05=err('Incomplete', ANY), C02=ERR(ANY), C12=None)
     row('short/not-a-prefix', [T.cmp('Lt', n, I(12)), T.bnot(f['SIGPFX'])],
-        C12=err('Prefix'), C02=ERR(ANY))
+        C12=err('Prefix'), C02=ERR(ANY), C08=err('Prefix'))
     row('signature-mismatch', [T.cmp('Ge', n, I(12)), T.bnot(f['SIGEQ'])],
-        C12=err('Prefix'), C02=ERR(ANY))
+        C12=err('Prefix'), C02=ERR(ANY), C08=err('Prefix'))
     row('fixed-part-incomplete', [T.cmp('Ge', n, I(12)), T.cmp('Lt', n, I(16)), f['SIGEQ']],
         C17=err('Incomplete', n), C05=err('Incomplete', ANY), C02=ERR(ANY))
     row('some-control-nibble-invalid', full + [T.bor_bool(T.bor_bool(ver_bad, cmd_bad), T.bor_bool(fam_bad, trn_bad))],
